@@ -256,6 +256,8 @@ func (st Style) Expr(e Node) string {
 			return "[" + strings.Join(args, ", ") + "]"
 		}
 		return name + "(" + strings.Join(args, ", ") + ")"
+	case "substr":
+		return "SUBSTR(" + st.Expr(e["s"].(Node)) + ", " + st.Expr(e["from"].(Node)) + ", " + st.Expr(e["len"].(Node)) + ")"
 	case "sub":
 		return "(" + st.sub().Query(e["q"].(Node)) + ")"
 	case "exists":
@@ -311,6 +313,13 @@ func (st Style) fromText(f Node, full Style) string {
 		if kw == "" {
 			kw = joinSQL[f["type"].(string)]
 		}
+		if using, ok := f["using"].([]any); ok {
+			cols := []string{}
+			for _, c := range using {
+				cols = append(cols, st.ident(c.(string)))
+			}
+			return full.From(f["l"].(Node)) + " " + kw + " " + full.From(f["r"].(Node)) + " USING (" + strings.Join(cols, ", ") + ")"
+		}
 		return full.From(f["l"].(Node)) + " " + kw + " " + full.From(f["r"].(Node)) + " ON " + full.Expr(f["on"].(Node))
 	}
 	panic(fmt.Sprintf("cannot render from %#v", f))
@@ -350,7 +359,14 @@ func (st Style) Query(q Node) string {
 		if q["all"].(bool) {
 			kw = " UNION ALL "
 		}
-		return st.Query(q["l"].(Node)) + kw + st.Query(q["r"].(Node)) + limitText(q)
+		// a side that brings its own WITH has to be parenthesised
+		side := func(n Node) string {
+			if n["k"] == "select" && len(seq(n["with"])) > 0 {
+				return "(" + st.Query(n) + ")"
+			}
+			return st.Query(n)
+		}
+		return side(q["l"].(Node)) + kw + side(q["r"].(Node)) + limitText(q)
 	}
 	var b strings.Builder
 	if with := seq(q["with"]); len(with) > 0 {
@@ -374,6 +390,9 @@ func (st Style) Query(q Node) string {
 			b.WriteString(", ")
 		}
 		if it["k"] == "star" {
+			if qual, _ := it["qual"].(string); qual != "" {
+				b.WriteString(st.ident(qual) + ".")
+			}
 			b.WriteString("*")
 			continue
 		}
